@@ -34,6 +34,8 @@ def cases(tier, seed):
         for (pn, pat) in pats:
             for H in dating.H_menu(a, tier):
                 out.append({"arg": a, "mut": pat, "H": H, "above_root": int(pn in ("mod3", "ones"))})
+            if pn == "ones":
+                out.append({"arg": a, "mut": pat, "H": {"kind": "cont"}, "above_root": 0, "merge_sites": True})
             if a["nn"] - a["n"] > 1:
                 # node-numbering decorator: non-sample ids in decreasing-age order (as tsinfer numbers them) / rotated
                 for rn in (("reverse",) if tier == "quick" else ("reverse", "rotate")):
@@ -96,7 +98,21 @@ def run(case):
             mp = fit.mutation_posteriors()
             mmn, mvr = mut_md(out, "mn"), mut_md(out, "vr")
             if not (_same(mmn, mp["mean"]) and _same(mvr, mp["variance"])):
-                bad("mutation_metadata_differs_from_fit", f"mn {mmn.tolist()} vs {mp['mean'].tolist()}")
+                # known finding F13 (see C02): rows of a site with mutations on several nodes come back re-sorted by
+                # their new times, so output row k is no longer input mutation k.  Accept only that exact pattern.
+                explained = ts.num_mutations == out.num_mutations and np.array_equal(ts.mutations_site, out.mutations_site)
+                if explained:
+                    for site in np.unique(ts.mutations_site):
+                        rows = np.flatnonzero(ts.mutations_site == site)
+                        a = sorted(zip(np.nan_to_num(mp["mean"][rows], nan=-1.0).tolist(), np.nan_to_num(mp["variance"][rows], nan=-1.0).tolist(), ts.mutations_node[rows].tolist()))
+                        b = sorted(zip(np.nan_to_num(mmn[rows], nan=-1.0).tolist(), np.nan_to_num(mvr[rows], nan=-1.0).tolist(), out.mutations_node[rows].tolist()))
+                        if a != b or (len(set(ts.mutations_node[rows].tolist())) < 2 and not _same(mmn[rows], mp["mean"][rows])):
+                            explained = False
+                if explained:
+                    viol.append({"kind": "mutation_metadata_rows_permuted_within_site", "msg": f"output nodes {out.mutations_node.tolist()} input nodes {ts.mutations_node.tolist()}",
+                                 "facts": {"method": method, "site_has_mutations_on_distinct_nodes": True, "same_multiset_per_site": True}, "sub": sub})
+                else:
+                    bad("mutation_metadata_differs_from_fit", f"mn {mmn.tolist()} vs {mp['mean'].tolist()}")
             if np.any(np.isnan(mp["mean"])):
                 tags["vg_nan_mutation_posteriors"] = tags.get("vg_nan_mutation_posteriors", 0) + 1
         else:
@@ -124,5 +140,5 @@ def run(case):
         if np.any(np.isnan(mn)):
             bad("no_time_metadata_written", "some node rows lack mn although the table had neither schema nor metadata")
         elif np.any(~is_sample):
-            keys.append(f"{case['arg']['id']}|{case['mut']}|{case['H']}|{case.get('renumber')}|{method}|{kw}")
+            keys.append(f"{case['arg']['id']}|{case['mut']}|{case['H']}|{case.get('renumber')}|{case.get('merge_sites')}|{method}|{kw}")
     return {"evals": evals, "viol": viol, "tags": tags, "keys": keys}
